@@ -17,7 +17,28 @@ from harness.props.c14 import floatify, gen, numeric_doc  # noqa: E402
 from harness.real import evaluate  # noqa: E402
 
 
-def export_digest(q):
+def _shared_impl(x):
+    """a user implementation that only handles numbers (raises on symbols: the call then stays unevaluated)"""
+    return int(x) * 2 + 1
+
+
+def functions_digest(names, seed):
+    """partial evaluation with a functions_map whose ONE callable is registered under the given names: calls with symbolic
+    arguments stay in the result under the names the document uses, whatever was registered earlier in the process"""
+    a, b = names
+    q = {"name": "root", "input_params": ["N", "M"],
+         "resources": [{"name": "T", "type": "additive", "value": f"{a}(M) + {a}(N) + 10*{b}(M)"}]}
+    st, r = try_compile(q)
+    if st != "ok":
+        return "functions:" + st
+    try:
+        ev = evaluate(r.routine, {"N": seed % 4 + 1}, functions_map={a: _shared_impl, b: _shared_impl})
+        return "functions:" + str(ev.routine.resources["T"].value) + ev.to_qref().model_dump_json()
+    except Exception as e:
+        return "functions:" + type(e).__name__
+
+
+def export_digest(q, seed=0):
     st, r = try_compile(q)
     if st != "ok":
         return "status:" + st
@@ -57,6 +78,7 @@ def export_digest(q):
         doc += json.dumps({k: repr(v.value) for k, v in ev.routine.resources.items()})
     except Exception as e:
         doc += "evaluate:" + type(e).__name__
+    doc += functions_digest(("t_cost", "u_cost"), seed)
     return hashlib.sha256(doc.encode()).hexdigest()
 
 
@@ -69,6 +91,7 @@ def main():
             st, r = try_compile(numeric_doc(s))
             if st == "ok":
                 evaluate(r.routine, {"N": s % 3 + 1})
+        functions_digest(("cost", "other_cost"), 1)      # the same callable, registered earlier under other names
     for s in seeds:
         if mode == "cleared":
             # clear every memoised function of the backend module (whatever they are called)
@@ -78,8 +101,8 @@ def main():
                 if callable(getattr(_v, "cache_clear", None)):
                     _v.cache_clear()
         q = floatify(G.to_qref(gen(s, None), G.Rendered()), s)
-        print(s, export_digest(q), flush=True)
-        print(-s, export_digest(floatify(numeric_doc(s), s)), flush=True)
+        print(s, export_digest(q, s), flush=True)
+        print(-s, export_digest(floatify(numeric_doc(s), s), s), flush=True)
 
 
 if __name__ == "__main__":
